@@ -2,6 +2,7 @@ package main
 
 import (
 	"fmt"
+	"go/ast"
 	"path/filepath"
 	"regexp"
 	"strings"
@@ -111,6 +112,38 @@ func extractZip(root string) (string, map[string]any, error) {
 	nestedDepth := strings.Contains(norm(p.src(p.method("VFS", "unzipNestedZipFiles").Body)), "fs.unzip(ctx, nestedZipFile, destination, limits, currentDepth+1)")
 	countsSkipZipNames := strings.Contains(ub, "if !(limits.ApplyRecursively() && fs.isZipWithContext(ctx, zippedFile.Name)) { fileCounter.Inc() fileList = append(fileList, filePath) }")
 	checksAfterEachFile := strings.Index(ub, "totalSizeOnDisk.Load() > limits.GetMaxTotalSize()") > strings.Index(ub, "fs.unzipZippedFile(")
+	// every iteration that extracts a file must fall through to the two checks: the only `continue`
+	// allowed in the loop is the one that ends the directory case, and no `break` / `goto`
+	var loop *ast.RangeStmt
+	ast.Inspect(um.Body, func(n ast.Node) bool {
+		if r, ok := n.(*ast.RangeStmt); ok && loop == nil && p.src(r.X) == "zipReader.File" {
+			loop = r
+		}
+		return true
+	})
+	if loop == nil {
+		return "", nil, fmt.Errorf("unzip: range over zipReader.File not found")
+	}
+	var dirIf *ast.IfStmt
+	for _, st := range loop.Body.List {
+		if ifs, ok := st.(*ast.IfStmt); ok && p.src(ifs.Cond) == "zippedFile.FileInfo().IsDir()" {
+			dirIf = ifs
+		}
+	}
+	ast.Inspect(loop.Body, func(n ast.Node) bool {
+		if b, ok := n.(*ast.BranchStmt); ok {
+			inDir := dirIf != nil && b.Pos() >= dirIf.Pos() && b.End() <= dirIf.End()
+			if !(b.Tok.String() == "continue" && inDir) {
+				checksAfterEachFile = false
+			}
+		}
+		return true
+	})
+	// the two checks must be the last statements of the loop body
+	nst := len(loop.Body.List)
+	if nst < 2 || !strings.Contains(norm(p.src(loop.Body.List[nst-2])), "totalSizeOnDisk.Load()") || !strings.Contains(norm(p.src(loop.Body.List[nst-1])), "limits.GetMaxFileCount()") {
+		checksAfterEachFile = false
+	}
 	lean := fmt.Sprintf("import GoUtils.Model.ZipPath\nimport GoUtils.Model.Unzip\nnamespace GoUtils.Generated.Zip\ndef ok : Bool := true\n"+
 		"def sanitise : GoUtils.ZipPath.SanitiseFacts := { joinsDestFirst := true, acceptsDestItself := true, rejectsDotDot := true, prefixWithSeparator := true, sanitiseBeforeMutation := %s, cleansDestination := %s }\n"+
 		"def limits : GoUtils.Unzip.LimitFacts := { archiveDepthStrict := %s, archiveSizeStrict := %s, entryDepthStrict := %s, totalStrict := %s, countStrict := %s, fileSizeStrict := %s, copiesDeclaredSize := %s, sizeCheckBeforeCopy := %s, nestedDepthPlusOne := %s, zipNamesCountedAfterExtraction := %s, checksAfterEachFile := %s }\n"+
